@@ -23,6 +23,72 @@ func seqPut() *proto.WriteRequest {
 	return &proto.WriteRequest{Shard: oxh.I64(1), Puts: []*proto.PutRequest{{Key: "p", Value: []byte("v"), PartitionKey: oxh.Str("p"), SequenceKeyDelta: []uint64{1}}}}
 }
 
+// subscribe serves one subscription of prefix "p" through the real public RPC handler (which owns the
+// waiter of the leader controller and forwards its updates to the client stream) until ctx ends.
+func subscribe(ctx context.Context, lc server.LeaderController, onKey func(string)) {
+	_ = server.VerifC16PublicSequenceUpdates(ctx, lc, &proto.GetSequenceUpdatesRequest{Shard: 1, Key: "p"}, onKey)
+}
+
+// deletesBody: a subscription that stays open while the highest records of the prefix are deleted: the
+// next generated key is lower than one the subscriber has already seen, and it is the latest one.
+func deletesBody() func(s *vsched.Sched) {
+	return func(s *vsched.Sched) {
+		s.Explore(false)
+		env := oxc.NewEnv(s)
+		kvf := oxc.NewObsFactory(env.Dir)
+		lc, err := server.NewLeaderController(server.Config{NotificationsRetentionTime: time.Hour}, "ns", 1, oxc.NewNet(), env.WalFactory("n1", 64*1024, true), kvf)
+		if err == nil {
+			_, err = lc.NewTerm(&proto.NewTermRequest{Namespace: "ns", Shard: 1, Term: 1, Options: &proto.NewTermOptions{EnableNotifications: true}})
+		}
+		if err == nil {
+			_, err = lc.BecomeLeader(context.Background(), &proto.BecomeLeaderRequest{Namespace: "ns", Shard: 1, Term: 1, ReplicationFactor: 1, FollowerMaps: map[string]*proto.EntryId{}})
+		}
+		var keys []string
+		for i := 0; i < 3 && err == nil; i++ {
+			var r *proto.WriteResponse
+			if r, err = lc.WriteBlock(context.Background(), seqPut()); err == nil {
+				keys = append(keys, r.Puts[0].GetKey())
+			}
+		}
+		if err != nil {
+			s.Fail("harness-setup", err.Error())
+			return
+		}
+		last := ""
+		var seen []string
+		ctx, cancel := context.WithCancel(context.Background())
+		vsched.Go(func() {
+			subscribe(ctx, lc, func(k string) {
+				last = k
+				seen = append(seen, k)
+			})
+		})
+		s.Settle()
+		s.Explore(true)
+		highest := ""
+		vsched.Go(func() {
+			// the two highest records go away, then a key is generated again
+			if _, err := lc.WriteBlock(context.Background(), &proto.WriteRequest{Shard: oxh.I64(1), DeleteRanges: []*proto.DeleteRangeRequest{{StartInclusive: keys[1], EndExclusive: keys[2] + "~"}}}); err != nil {
+				return
+			}
+			if r, err := lc.WriteBlock(context.Background(), seqPut()); err == nil && r.Puts[0].Status == proto.Status_OK {
+				highest = r.Puts[0].GetKey()
+			}
+		})
+		s.Settle()
+		s.Explore(false)
+		if highest != "" && highest >= keys[2] {
+			s.Fail("harness-setup", fmt.Sprintf("expected a generated key below %q, got %q", keys[2], highest))
+		}
+		if highest != "" && last != highest {
+			s.Fail("subscriber-missed-latest-key", fmt.Sprintf("records %q..%q deleted, the next generated key is %q; the subscriber that stayed connected holds %q at quiescence (received %v)", keys[1], keys[2], highest, last, seen))
+		}
+		s.Data = fmt.Sprintf("last=%s highest=%s", last, highest)
+		cancel()
+		_ = lc.Close()
+	}
+}
+
 func body(writers int, preload int) func(s *vsched.Sched) {
 	return func(s *vsched.Sched) {
 		s.Explore(false)
@@ -61,18 +127,10 @@ func body(writers int, preload int) func(s *vsched.Sched) {
 		var seen []string
 		ctx, cancel := context.WithCancel(context.Background())
 		vsched.Go(func() {
-			sw, err := lc.GetSequenceUpdates(ctx, &proto.GetSequenceUpdatesRequest{Shard: 1, Key: "p"})
-			if err != nil {
-				return
-			}
-			for {
-				k, err := sw.Receive(ctx)
-				if err != nil || k == "" {
-					return
-				}
+			subscribe(ctx, lc, func(k string) {
 				last = k
 				seen = append(seen, k)
-			}
+			})
 		})
 		s.Settle()
 		s.Explore(false)
@@ -125,21 +183,7 @@ func churnBody() func(s *vsched.Sched) {
 			sb := &subscriber{}
 			var ctx context.Context
 			ctx, sb.cancel = context.WithCancel(context.Background())
-			vsched.Go(func() {
-				sw, err := lc.GetSequenceUpdates(ctx, &proto.GetSequenceUpdatesRequest{Shard: 1, Key: "p"})
-				if err != nil {
-					return
-				}
-				// like the public RPC handler: the waiter is closed when the subscriber goes away
-				defer func() { _ = sw.Close() }()
-				for {
-					k, err := sw.Receive(ctx)
-					if err != nil || k == "" {
-						return
-					}
-					sb.last = k
-				}
-			})
+			vsched.Go(func() { subscribe(ctx, lc, func(k string) { sb.last = k }) })
 			return sb
 		}
 		s1 := start()
@@ -203,20 +247,7 @@ func refusedBody(viaSession bool) func(s *vsched.Sched) {
 		}
 		last := ""
 		ctx, cancel := context.WithCancel(context.Background())
-		vsched.Go(func() {
-			sw, err := lc.GetSequenceUpdates(ctx, &proto.GetSequenceUpdatesRequest{Shard: 1, Key: "p"})
-			if err != nil {
-				return
-			}
-			defer func() { _ = sw.Close() }()
-			for {
-				k, err := sw.Receive(ctx)
-				if err != nil || k == "" {
-					return
-				}
-				last = k
-			}
-		})
+		vsched.Go(func() { subscribe(ctx, lc, func(k string) { last = k }) })
 		s.Settle()
 		s.Explore(true)
 		ok := seqPut().Puts[0]
@@ -254,6 +285,7 @@ func scenarios(tier string) []sched.Scenario {
 		{Name: "1writer-preloaded", Cfg: cfg, MaxDev: 2, Body: body(1, 1)},
 		{Name: "2writers-preloaded", Cfg: cfg, MaxDev: 2, Body: body(2, 1)},
 		{Name: "subscriber-churn", Cfg: cfg, MaxDev: 2, Body: churnBody()},
+		{Name: "subscription-across-deletes", Cfg: cfg, MaxDev: 2, Body: deletesBody()},
 		{Name: "batch-last-seqput-refused-version", Cfg: cfg, MaxDev: 2, Body: refusedBody(false)},
 		{Name: "batch-last-seqput-refused-session", Cfg: cfg, MaxDev: 2, Body: refusedBody(true)},
 	}
